@@ -19,6 +19,7 @@ import (
 	"math/rand"
 	"os"
 	"runtime"
+	"strings"
 	"sync"
 	"sync/atomic"
 	"time"
@@ -1025,7 +1026,7 @@ func main() {
 	poolsan.Install(func(r poolsan.Report) {
 		rep.Violation("poolsan-"+r.Kind, "buffer-pool sanitizer: "+r.Kind+": "+r.Info, map[string]any{"stack": r.Stack})
 	})
-	rep.SetRule("cases: barrier phases (N withheld queries, limit L, exact ceil(N/L) connections and <= L per connection), random histories of reply/cancel/deadline/write-error/peer-close/dial-failure followed by the conservation invariant (VerifSnapshot under mosdns' own locks) and a capacity probe (live*L withheld queries without a new dial, then one more must dial), early-reservation phases with the dial held, bare-connection reserve/withdraw/exchange histories + probe; non-trivial = a phase that completed its oracle (distinct by kind, framing, limit, N / live connections, seed)")
+	rep.SetRule("cases: barrier phases (N withheld queries, limit L, exact ceil(N/L) connections and <= L per connection), random histories of reply/cancel/deadline/write-error/peer-close/dial-failure followed by the conservation invariant (VerifSnapshot under mosdns' own locks) and a capacity probe (live*L withheld queries without a new dial, then one more must dial), early-reservation phases with the dial held, bare-connection reserve/withdraw/exchange histories + probe, single-driver admission ledgers on one connection (reserve / refused at the limit / withdraw / start / completed / failed / cancelled in scripted fill-refuse-giveback-retake rounds per give-back route and in random orders, directly and with the connection owned by a PipelineTransport; oracle after every step: below the limit a reservation must be admitted); non-trivial = a phase that completed its oracle (distinct by kind, framing, limit, N / live connections, seed)")
 	rep.Assume("the adversary withholds replies in barrier/probe phases, so 'seen on the connection' implies 'concurrently unanswered'")
 
 	if rep.ReplayFile != "" {
@@ -1044,7 +1045,13 @@ func main() {
 				history(c.Case)
 			case "bare":
 				bare(c.Case)
+			case "ledger-random":
+				ledgerCase(c.Case)
 			default:
+				if strings.HasPrefix(c.Case.Phase, "ledger-route:") {
+					ledgerCase(c.Case)
+					continue
+				}
 				early(c.Case)
 			}
 		}
@@ -1094,6 +1101,8 @@ func main() {
 	for i := 0; i < rep.Pick(200, 3000); i++ {
 		bare(tcase{Kind: "tdc", Stream: rng.Intn(2) == 0, L: limits[rng.Intn(len(limits))], Seed: rng.Int63n(1 << 40), Phase: "bare", Procs: procs[rng.Intn(3)], Perturb: rng.Intn(2) == 0})
 	}
+	// E: admission ledger on one connection (ledger.go)
+	ledgerPhase(rng, limits, procs)
 	qidExhaustion(rep.Seed)
 	runtime.GOMAXPROCS(16)
 	sched.NoPerturb()
